@@ -7,6 +7,7 @@ run — the check demands it whenever the C++ step raised no FE_INEXACT).
 -/
 import SharkVerif.Model.GradOpt
 import SharkVerif.Model.Objectives
+import SharkVerif.Gen.LbfgsBox
 open SharkVerif.Opt
 
 /-! ### numbers -/
@@ -190,7 +191,8 @@ def boxDirFields (l u x g : List Float) (bdiag : Float) (hist : List (List Float
   let n := x.length
   let p0h := bx.take n; let bih := (bx.drop n).take n; let bph := (bx.drop (2 * n)).take n
   let p0m := LSOpt.Box.p0 l u x g
-  let d := LSOpt.Box.directionOf (fun _ => bih) (fun _ => bph) l u x g
+  -- the variant of the function the checked tree contains (regenerated from its source on every run)
+  let d := LSOpt.Box.directionOfV SharkVerif.Gen.LbfgsBox.variant (fun _ => bih) (fun _ => bph) l u x g
   [("box-p0", if p0m.length == n && (List.zipWith (fun a b => a.toBits == b.toBits || (a == 0 && b == 0)) p0m p0h).all id then 0 else 2),
    ("box-multBInv", cmpVec (LSOpt.multBInv bdiag hist p0m) bih),
    ("box-dir", cmpVec d dirH)]
